@@ -194,6 +194,9 @@ def fmt_float(v):
 # what the driver's value-parsing callback produces (cfgdrv.c cb_parse)
 def cb_parse_value(kind, t):
     if kind == 'int':
+        special = {b'BIG': 3232235521, b'I31': 2147483648, b'U32': 4294967295, b'NEG': -5, b'HUGE': (1 << 40) + 7}
+        if t in special:
+            return special[t]         # what a callback produces is the value: any long
         return len(t) * 1000 + (t[0] if t else 0)
     if kind == 'float':
         if t == b'INF':
